@@ -71,7 +71,7 @@ def key(e):
 
 def program(exprs, seed, nvals):
     """exprs: list of ASTs, already closed under children. Expression 0 must be PhantomData<()>."""
-    L = ["use vh::texpr::Ctx;", "fn main() {", "    let mut c = Ctx::new(%d, %d);" % (seed, nvals)]
+    L = ["#![recursion_limit = \"1024\"]", "use vh::texpr::Ctx;", "fn main() {", "    let mut c = Ctx::new(%d, %d);" % (seed, nvals)]
     # two user types with the SAME name in two blocks of this one function (same type_name, same path, different identity)
     for k, inner in ((1, "u8"), (2, "u16")):
         L.append(LOCAL % {"k": k, "t": inner})
